@@ -187,7 +187,7 @@ func monC14(c *child.Ctx, replay json.RawMessage) {
 
 	// random part
 	r := ref.NewRand(c.Seed*1000003 + uint64(c.Batch))
-	n := c.Share(c.Pick(2000000, 200000000))
+	n := c.Share(c.Pick(10000000, 400000000))
 	for i := 0; i < n; i++ {
 		blen := r.Range(1, 24)
 		buf := r.Bytes(blen)
